@@ -24,6 +24,35 @@ theorem ecomax_cfg (mixers : Bool) :
     Gen.setupFrames.map (·.1) = [57, 85, 49, 61, 54, 50, 92, 58] := by
   cases mixers <;> decide
 
+/-- **setup_source_facts**: what the machine assumes about `devices/__init__.py` / `devices/ecomax.py`, read from the source
+on every run (Generated/Pipeline.lean) and pinned here: the device uses exactly the table `SETUP_FRAME_TYPES`, in its
+order; `EcoMAX.async_setup` waits for the sensor data and for nothing else before the requests start; the request loop
+runs while attempts are left (`retries > 0`: not at 0 — `step`'s `R = 0` branch —, at 1, 2, 3), retries only on the
+time-out, puts the request on the queue and waits for the value inside the loop, and ends with `ValueError(message, frame
+type)`; the error list takes argument 1 of the exceptions that `gather(..., return_exceptions=True)` returned. -/
+theorem setup_source_facts :
+    Gen.setupFramesOfDevice = Gen.setupFrames ∧ Gen.setupGate = ["sensors"] ∧
+    (List.range 4).map loopRuns = [some false, some true, some true, some true] ∧
+    Gen.requestRetryOn = ["asyncio.TimeoutError"] ∧
+    Gen.requestTryCalls.contains "put_nowait" = true ∧ Gen.requestTryCalls.contains "get" = true ∧
+    Gen.requestRaises = "ValueError" ∧ Gen.requestRaiseArgs = 2 ∧ Gen.setupErrorsArgIndex = 1 ∧
+    Gen.setupReturnExceptions = true := by decide
+
+/-- **product_waiters**: the handlers that wait for product information are exactly the ecoMAX's handler of the ecoMAX
+parameters and the mixers' handler of the mixer parameters — no thermostat handler, no other set-up kind -/
+theorem product_waiters :
+    (Gen.handlerWaitsProduct.filter (fun r => r.2.2.2 != 0)).map (fun r => (r.1, r.2.1)) =
+      [("EcoMAX", "ecomax_parameters"), ("Mixer", "mixer_parameters")] ∧
+    (Gen.setupFramesOfDevice.map fun p => (depOf false p.2, depOf true p.2)) =
+      [(false, false), (false, false), (true, true), (false, false), (false, false), (false, true), (false, false), (false, false)] := by
+  decide
+
+/-- the machine's request loop and the source agree on when a round is made: with `R` attempts configured the machine
+makes a first round iff the loop test holds for `R` (R = 0: every request raises at once) -/
+theorem request_loop_matches (r : Nat) (h : r < 4) : loopRuns r = some (decide (0 < r)) := by
+  have : r = 0 ∨ r = 1 ∨ r = 2 ∨ r = 3 := by omega
+  rcases this with rfl | rfl | rfl | rfl <;> decide
+
 /-- **completes**: once the sensor data has been seen, `retries` timer expiries — i.e. the clock
 reaching sensors + retries × timeout — are enough: the device is loaded, whatever was or was
 not answered in between. -/
